@@ -488,7 +488,7 @@ def c13(run):
 
 @check("C11")
 def c11(run):
-    fams = ["str2", "arr2", "num", "twice", "argvars"] if run.tier == "quick" else ["str3", "arr3", "num", "twice", "argvars"]
+    fams = ["str2", "arr2", "num", "twice", "argvars", "seqcalls"] if run.tier == "quick" else ["str3", "arr3", "num", "twice", "argvars", "seqcalls"]
     sts = run.tlc_many([dict(module="MC_Builtins", cfg=text_cfg(fam).replace("INVARIANTS Gen", "INVARIANTS Total Gen"),
                              name="MC_Builtins_" + fam, timeout=3000, workers=2) for fam in fams])
     for fam, st in zip(fams, sts):
@@ -532,7 +532,8 @@ def c12(run):
 def link_cfg(family):
     # c07collide: the model binds an argument over a visible name of another type (TypeStable is then not an invariant)
     collide = family == "c07collide"
-    sep = {"c07lines": "  SlotSep <- SepLines\n", "c07comment": "  SlotSep <- SepComment\n", "c07tight": "  ArgLay <- LayTight\n"}.get(family, "")
+    sep = {"c07lines": "  SlotSep <- SepLines\n", "c07comment": "  SlotSep <- SepComment\n", "c07tight": "  ArgLay <- LayTight\n",
+           "c06uselast": "  UsePos <- PosLast\n", "c06usemid": "  UsePos <- PosMid\n"}.get(family, "")
     return """CONSTANTS
   DevP <- DevPIntended
   Family = "%s"
@@ -557,12 +558,13 @@ def link_check(run, fam, rule, more=()):
 
 @check("C06")
 def c06(run):
-    return link_check(run, "c06",
+    return link_check(run, "c06", more=["c06uselast", "c06usemid"], rule=
                       "three layouts (reserves at top level, inside @if, inside @each) x pages inserting every subset of "
                       "the reserves, each insert in block or expression form, in both orders, with junk text between "
                       "them x 4 data maps x both spellings of @use ('layouts/main', '~main'); plus the four error trees "
                       "(undefined insert, duplicate insert incl. one nested in @if, missing layout, layout using a "
-                      "layout); the model links the page (TwLink) and runs the linked program on machine E")
+                      "layout); every tree again with the page's @use written after its inserts and after its first statement; the "
+                      "model links the page (TwLink) and runs the linked program on machine E")
 
 
 @check("C07")
